@@ -497,6 +497,7 @@ func (w *world) actBatchAdd(view, slot int) {
 		}
 	}
 	if o.kind == 2 {
+		w.nontriv["info:batch-range-deletion"] = true
 		if vs.Known(testName, knownLevelBatchRangeEager) {
 			for _, b := range w.backends {
 				if b.name == "leveldb" && b.active {
@@ -630,6 +631,7 @@ func (w *world) actBatchReplay(view, slot int) {
 		w.nontriv["history:"+knownTableReplayRange] = true
 	}
 	intoBatch := rapid.Bool().Draw(w.rt, "replayIntoBatch")
+	w.nontriv[fmt.Sprintf("info:replay(intoBatch=%v,range=%v)", intoBatch, hasRange)] = true
 	w.logf("%s.batch%d.Replay(intoBatch=%v)", viewName(view), slot, intoBatch)
 	p := w.viewPrefix(view)
 	want := w.m.clone()
@@ -836,11 +838,11 @@ func lockStep(rt *rapid.T, st *vs.S) {
 	defer os.RemoveAll(dir)
 	w := newWorld(rt, dir)
 	defer w.close()
-	steps := rapid.IntRange(5, 50).Draw(rt, "steps")
+	steps := rapid.IntRange(8, 50).Draw(rt, "steps")
 	for i := 0; i < steps; i++ {
 		view := rapid.IntRange(0, 1).Draw(rt, "view")
 		slot := rapid.IntRange(0, 1).Draw(rt, "slot")
-		switch k := rapid.IntRange(0, 29).Draw(rt, "action"); {
+		switch k := rapid.IntRange(0, 35).Draw(rt, "action"); {
 		case k < 7:
 			w.actPut(view)
 		case k < 9:
@@ -849,22 +851,31 @@ func lockStep(rt *rapid.T, st *vs.S) {
 			w.actDeleteRange(view)
 		case k < 13:
 			w.actGet(view)
-		case k < 19:
-			w.actBatchAdd(view, slot)
-		case k < 21:
-			w.actBatchWrite(view, slot)
 		case k < 22:
-			w.actBatchReset(view, slot)
+			w.actBatchAdd(view, slot)
 		case k < 24:
+			w.actBatchWrite(view, slot)
+		case k < 25:
+			w.actBatchReset(view, slot)
+		case k < 28:
 			w.actBatchReplay(view, slot)
-		case k < 26:
+		case k < 30:
 			w.actIterFull(view)
-		case k < 27:
+		case k < 32:
 			w.actIterOpen(view)
-		case k < 29:
+		case k < 34:
 			w.actIterStep(rapid.IntRange(1, 3).Draw(rt, "iterN"))
+		case k < 35:
+			if w.itOpen {
+				w.logf("iterator.release (partially consumed)")
+				w.nontriv["info:iterator-released-early"] = true
+				w.releaseIter()
+			}
 		default:
-			w.actReopen()
+			if rapid.IntRange(0, 2).Draw(rt, "reopen") == 0 {
+				w.nontriv["info:reopen"] = true
+				w.actReopen()
+			}
 		}
 		w.checkAll("after step")
 	}
@@ -885,8 +896,13 @@ func lockStep(rt *rapid.T, st *vs.S) {
 	nt := false
 	for _, l := range labels {
 		c.Class(l)
-		if !strings.HasPrefix(l, "history:") {
+		if !strings.HasPrefix(l, "history:") && !strings.HasPrefix(l, "info:") {
 			nt = true
+		}
+	}
+	for _, b := range w.backends {
+		if b.active {
+			c.Class("in-lock-step-to-the-end:" + b.name)
 		}
 	}
 	c.Classf("prefix:%q", w.prefix)
